@@ -96,6 +96,39 @@ ASSUMPTIONS = [
 EXHAUSTIVE = {"quick": False, "thorough": False}
 
 RTOL = 1e-7
+
+
+class _Tol:
+    """
+    Tolerance regime of the scene being judged (set per scenario by `regime()`):
+      r      relative tolerance (x10 x magnitude of the placed coordinates)
+      floor  smallest magnitude the tolerance is relative to.  1.0 for ordinary scenes (i.e. an
+             absolute 1e-6); the unit of length of a `small` scene, where rounding is relative
+             to coordinates of that size and nothing else excuses an error
+      w      allowed |graph world matrix - product of the edges| per entry
+    """
+
+    r = RTOL
+    floor = 1.0
+    w = RTOL
+
+
+TOL = _Tol()
+# documented constant: SceneGraph(repair_rigid=1e-5) re-orthogonalises world matrices that are rigid to
+# within 1e-5; generated low-precision rotations deviate by <= 2e-6, results are judged at 1e-5 x size
+REPAIR_RIGID = 1e-5
+SMALL_UNIT = 1e-9
+NEAR_IDENTITY = 1e-8  # `is identity` shortcuts of transform_points / apply_transform
+NI_DROPPED = "near_identity_world_transform_dropped"
+
+
+def regime(name):
+    if name == "lowprec":
+        TOL.r, TOL.floor, TOL.w = REPAIR_RIGID / 10.0, 1.0, REPAIR_RIGID
+    elif name == "small":
+        TOL.r, TOL.floor, TOL.w = RTOL, SMALL_UNIT, RTOL
+    else:
+        TOL.r, TOL.floor, TOL.w = RTOL, 1.0, RTOL
 KINDS = ("mesh", "cloud", "path3", "path2")
 SCALES = (0.5, 2.0, 0.8, 1.25)
 
@@ -137,7 +170,14 @@ def make_real(gm):
     raise KeyError(gm.kind)
 
 
-def random_geom(rng, kind):
+def random_geom(rng, kind, unit=1.0):
+    gm = _random_geom(rng, kind)
+    if unit != 1.0:
+        gm.V = gm.V * unit
+    return gm
+
+
+def _random_geom(rng, kind):
     if kind == "mesh":
         r = int(rng.integers(0, 4))
         if r == 0:
@@ -164,7 +204,14 @@ def random_geom(rng, kind):
     return GeomModel("path2", np.round(np.column_stack([np.cos(ang), np.sin(ang)]) * r + c, 3))
 
 
-def fixed_geom(kind):
+def fixed_geom(kind, unit=1.0):
+    gm = _fixed_geom(kind)
+    if unit != 1.0:
+        gm.V = gm.V * unit
+    return gm
+
+
+def _fixed_geom(kind):
     if kind == "mesh":
         V, F = gmesh.box_int((1, 2, 3), (1, 0, -1))
         return GeomModel("mesh", V, F)
@@ -184,8 +231,27 @@ def _unit(v):
     return v / np.linalg.norm(v)
 
 
-def edge_matrix(rng, rot_class, scale, translate=True):
+def degrade(M, precision):
+    """
+    The rotation factor of a similarity matrix as a low-precision source delivers it: stored in single
+    precision or written with six decimals (R R^T - I between 1e-8 and 2e-6), times the exact scale.
+    """
+    if precision in (None, "exact"):
+        return M
+    s = lin_scale(M)
+    R = M[:3, :3] / s
+    R = R.astype(np.float32).astype(np.float64) if precision == "float32" else np.round(R, 6)
+    out = M.copy()
+    out[:3, :3] = R * s
+    return out
+
+
+def edge_matrix(rng, rot_class, scale, translate=True, unit=1.0, precision=None):
     """rot_class: none | aligned | general"""
+    return degrade(_edge_matrix(rng, rot_class, scale, translate, unit), precision)
+
+
+def _edge_matrix(rng, rot_class, scale, translate, unit):
     if rot_class == "none":
         M = np.eye(4)
     elif rot_class == "aligned":
@@ -197,8 +263,18 @@ def edge_matrix(rng, rot_class, scale, translate=True):
         M = axis_angle_to_matrix(_unit(rng.normal(size=3)), ang)
     M[:3, :3] *= scale
     if translate:
-        M[:3, 3] = np.round(rng.uniform(-5, 5, size=3), 3)
+        M[:3, 3] = np.round(rng.uniform(-5, 5, size=3), 3) * unit
     return M
+
+
+def worlds_differ(M, W):
+    """the graph's world matrix M is not the product of the edges W (within the regime's tolerance)"""
+    if TOL.floor >= 1.0:
+        return bool(np.abs(M - W).max() > TOL.w * max(1.0, np.abs(W).max()))
+    # small scenes: the translation column is judged relative to its own magnitude
+    return bool(np.abs(M[:3, :3] - W[:3, :3]).max() > TOL.w * max(1.0, np.abs(W[:3, :3]).max())
+                or np.abs(M[:3, 3] - W[:3, 3]).max() > TOL.w * max(TOL.floor, np.abs(W[:3, 3]).max())
+                or np.abs(M[3] - W[3]).max() > 0)
 
 
 def lin_scale(W):
@@ -226,9 +302,12 @@ class SceneModel:
         self.geoms = {}  # name -> GeomModel
         self.hist = []  # edit kinds applied
         self.deleted_geometry = False
+        self.unit = 1.0  # unit of length of the generated coordinates (SMALL_UNIT for `small` scenes)
+        self.regime = None
 
     def copy(self):
         c = SceneModel()
+        c.unit, c.regime = self.unit, self.regime
         c.forest = self.forest.copy()
         c.geoms = {k: v.copy() for k, v in self.geoms.items()}
         c.hist = list(self.hist)
@@ -261,7 +340,18 @@ class SceneModel:
         return sorted({self.geoms[g].kind for _, g, _ in self.forest.instances() if g in self.geoms})
 
     def nontrivial(self):
-        return any(np.abs(W - np.eye(4)).max() > 1e-9 for _, _, W in self.forest.instances())
+        return any(np.abs(W - np.eye(4)).max() > 1e-9 * self.unit for _, _, W in self.forest.instances())
+
+    def near_identity_nodes(self, worlds=None):
+        """instances whose world matrix is within the `is identity` shortcut (1e-8) of I without being I"""
+        out = []
+        for node, gname, W in self.forest.instances():
+            if worlds is not None:
+                W = worlds[node]
+            d = float(np.abs(W - np.eye(4)).max())
+            if 0.0 < d < NEAR_IDENTITY:
+                out.append(node)
+        return out
 
     def digest(self):
         f = self.forest
@@ -270,7 +360,7 @@ class SceneModel:
              _edge_tag(f.matrix.get(n)))
             for n in f.nodes
         )
-        return (f.shape(), per_node, tuple(self.hist))
+        return (f.shape(), per_node, tuple(self.hist), self.regime)
 
 
 def _edge_tag(M):
@@ -334,7 +424,7 @@ class Expect:
         self.triangles_node = tnode
         self.area, self.volume = area, vol
         self.area_unscaled, self.volume_unscaled = area_unscaled, vol_unscaled
-        self.scale = max(1.0, float(np.abs(self.points).max())) if len(self.points) else 1.0
+        self.scale = max(TOL.floor, float(np.abs(self.points).max())) if len(self.points) else TOL.floor
 
     def hull_volume(self):
         from scipy.spatial import ConvexHull
@@ -348,7 +438,7 @@ def close(a, b, scale=1.0, power=1):
         return False
     if a.size == 0:
         return True
-    return bool(np.abs(a - b).max() <= RTOL * max(1.0, scale) ** power * 10)
+    return bool(np.abs(a - b).max() <= TOL.r * max(TOL.floor, scale) ** power * 10)
 
 
 def same_point_multiset(A, B, scale):
@@ -360,7 +450,7 @@ def same_point_multiset(A, B, scale):
         return False
     if len(A) == 0:
         return True
-    tol = RTOL * max(1.0, scale) * 10 * np.sqrt(A.shape[1])
+    tol = TOL.r * max(TOL.floor, scale) * 10 * np.sqrt(A.shape[1])
     da, _ = cKDTree(B).query(A)
     db, _ = cKDTree(A).query(B)
     return bool(da.max() <= tol and db.max() <= tol)
@@ -378,6 +468,7 @@ def build(spec):
     import trimesh
 
     sm = SceneModel()
+    sm.unit, sm.regime = float(spec.get("unit", 1.0)), spec.get("regime")
     scene = trimesh.Scene(base_frame="world")
     used = set()
     for name, gm in spec["geoms"].items():
@@ -407,6 +498,7 @@ def spec_to_json(spec):
         "geoms": {k: {"kind": g.kind, "V": g.V.tolist(), "F": None if g.F is None else g.F.tolist()} for k, g in spec["geoms"].items()},
         "frames": [[n, p, M.tolist(), g] for n, p, M, g in spec["frames"]],
         "unplaced": list(spec.get("unplaced", ())),
+        "unit": float(spec.get("unit", 1.0)), "regime": spec.get("regime"),
     }
 
 
@@ -415,22 +507,41 @@ def spec_from_json(j):
         "geoms": {k: GeomModel(g["kind"], g["V"], g["F"]) for k, g in j["geoms"].items()},
         "frames": [(n, p, np.array(M, dtype=np.float64), g) for n, p, M, g in j["frames"]],
         "unplaced": list(j.get("unplaced", ())),
+        "unit": float(j.get("unit", 1.0)), "regime": j.get("regime"),
     }
 
 
-def random_spec(rng, pyrng):
-    kinds_mode = pyrng.choice(["mesh", "mesh", "mesh+cloud", "mesh+path3", "mesh+path2", "all", "all", "nomesh"])
+def random_spec(rng, pyrng, regime=None):
+    """
+    regime None:      exact float64 edge matrices, coordinates of order 1
+           "lowprec": rotation factors in single precision / six decimals (similarity edges mostly)
+           "small":   the same scenes in a unit of 1e-9 (vertices and translations), translation-only edges
+                      frequent, so that world matrices within 1e-8 of the identity occur; no Path2D
+                      (polygon processing has absolute tolerances of its own, not a scene mechanism)
+    """
+    unit = SMALL_UNIT if regime == "small" else 1.0
+    modes = ["mesh", "mesh", "mesh+cloud", "mesh+path3", "mesh+path2", "all", "all", "nomesh"]
+    if regime == "small":
+        modes = ["mesh", "mesh", "mesh+cloud", "mesh+path3", "all3", "nomesh3"]
+    kinds_mode = pyrng.choice(modes)
     pool_kinds = {
         "mesh": ["mesh"], "mesh+cloud": ["mesh", "cloud"], "mesh+path3": ["mesh", "path3"],
         "mesh+path2": ["mesh", "path2"], "all": list(KINDS), "nomesh": ["cloud", "path3", "path2"],
+        "all3": ["mesh", "cloud", "path3"], "nomesh3": ["cloud", "path3"],
     }[kinds_mode]
     ng = int(rng.integers(1, 5))
     geoms = {}
     for i in range(ng):
         k = pool_kinds[i] if i < len(pool_kinds) else pyrng.choice(pool_kinds)
-        geoms["g%d" % i] = random_geom(rng, k)
+        geoms["g%d" % i] = random_geom(rng, k, unit)
     edge_mode = pyrng.choice(["rigid", "rigid", "similarity", "mixed"])
     rot_mode = pyrng.choice(["general", "general", "aligned", "none", "mixed"])
+    if regime == "lowprec":
+        edge_mode = pyrng.choice(["similarity", "similarity", "mixed", "rigid"])
+        rot_mode = pyrng.choice(["general", "general", "mixed"])
+    elif regime == "small":
+        edge_mode = pyrng.choice(["rigid", "rigid", "rigid", "mixed"])
+        rot_mode = pyrng.choice(["none", "none", "mixed", "mixed", "general"])
     nframes = int(rng.integers(1, 9))
     frames, depth = [], {None: 0}
     for i in range(nframes):
@@ -442,7 +553,10 @@ def random_spec(rng, pyrng):
         if edge_mode == "similarity" or (edge_mode == "mixed" and pyrng.random() < 0.5):
             s = pyrng.choice(SCALES)
         rc = rot_mode if rot_mode != "mixed" else pyrng.choice(["general", "aligned", "none"])
-        M = edge_matrix(rng, rc, s, translate=pyrng.random() < 0.9)
+        precision = None
+        if regime == "lowprec" and pyrng.random() < 0.8:
+            precision = pyrng.choice(["float32", "decimal6"])
+        M = edge_matrix(rng, rc, s, translate=pyrng.random() < 0.9, unit=unit, precision=precision)
         g = pyrng.choice(list(geoms)) if pyrng.random() < 0.7 else None
         frames.append((name, parent, M, g))
     if not any(f[3] for f in frames):
@@ -451,7 +565,58 @@ def random_spec(rng, pyrng):
     placed = {f[3] for f in frames if f[3]}
     unplaced = [g for g in geoms if g not in placed and pyrng.random() < 0.5]
     geoms = {k: v for k, v in geoms.items() if k in placed or k in unplaced}
-    return {"geoms": geoms, "frames": frames, "unplaced": unplaced}
+    return {"geoms": geoms, "frames": frames, "unplaced": unplaced, "unit": unit, "regime": regime}
+
+
+def regime_battery_specs():
+    """
+    Seed-independent scenes of the two extra regimes.
+    lowprec: a rig frame with a similarity (or rigid) edge whose rotation is float32 / six-decimal, instances
+             below it and beside it (depth 1-2), scales 2.5 / 0.4 / 3.0 / 1.0.
+    small:   parts of a few 1e-9 placed by translations of a few 1e-9 (world matrix within 1e-8 of I) at depth
+             1-2, next to a rotated instance, kinds mesh / cloud / path3.
+    """
+    out = []
+    A1 = axis_angle_to_matrix([0, 0, 1], 0.7)
+    A1[:3, 3] = [1.0, 2.0, 3.0]
+    A2 = axis_angle_to_matrix(_unit([1, 1, 0]), 1.1)
+    A2[:3, 3] = [0.0, -3.0, 1.0]
+    A3 = axis_angle_to_matrix([0, 1, 0], -0.4)
+    A3[:3, 3] = [-6.0, 0.0, 0.0]
+    Tr = np.eye(4)
+    Tr[:3, 3] = [4.0, 0.0, 0.0]
+
+    def scaled_by(M, k):
+        M = M.copy()
+        M[:3, :3] *= k
+        return M
+
+    for precision, (s1, s2, s3) in itertools.product(("float32", "decimal6"), ((2.5, 0.4, 3.0), (1.0, 1.0, 1.0), (2.0, 0.5, 1.25))):
+        frames = [
+            ("rig", None, degrade(scaled_by(A1, s1), precision), None),
+            ("box_a", "rig", Tr.copy(), "g0"),
+            ("ball_a", "rig", degrade(scaled_by(A2, s2), precision), "g1"),
+            ("box_b", None, degrade(scaled_by(A3, s3), precision), "g0"),
+        ]
+        geoms = {"g0": fixed_geom("mesh"), "g1": fixed_geom("cloud")}
+        out.append(("battery:lowprec:%s:%s" % (precision, "rigid" if s1 == 1.0 else "similarity"),
+                    {"geoms": geoms, "frames": frames, "unplaced": [], "unit": 1.0, "regime": "lowprec"}))
+    u = SMALL_UNIT
+    for kind, depth in itertools.product(("mesh", "cloud", "path3"), (1, 2)):
+        T1 = np.eye(4)
+        T1[:3, 3] = [5 * u, 0.0, 0.0]
+        T2 = np.eye(4)
+        T2[:3, 3] = [0.0, -3 * u, 2 * u]
+        R = axis_angle_to_matrix(_unit([1, 2, 3]), 0.9)
+        R[:3, 3] = [1 * u, -2 * u, 4 * u]
+        frames = [("f0", None, T1, "g0" if depth == 1 else None)]
+        if depth == 2:
+            frames.append(("f1", "f0", T2, "g0"))
+        frames.append(("r0", None, R, "gm"))
+        geoms = {"g0": fixed_geom(kind, u), "gm": fixed_geom("mesh", u)}
+        out.append(("battery:small:%s:depth%d" % (kind, depth),
+                    {"geoms": geoms, "frames": frames, "unplaced": [], "unit": u, "regime": "small"}))
+    return out
 
 
 def battery_specs():
@@ -498,6 +663,57 @@ CACHED = {"bounds", "extents", "centroid", "area", "volume", "triangles", "trian
           "center_mass", "moment_inertia"}
 
 
+def dropped_expectations(sm, worlds, near):
+    """
+    Explicit placement with the near-identity world matrices replaced by the identity: for every such
+    instance (the max-abs test of transform_points / Path.apply_transform), and for those that also pass the
+    peak-to-peak test of Trimesh.apply_transform only.
+    """
+    out = []
+    kind_of = {n: sm.geoms[g].kind for n, g, _ in sm.forest.instances() if g in sm.geoms}
+    ptp = [n for n in near if kind_of.get(n) != "mesh" or float(np.ptp(worlds[n] - np.eye(4))) < NEAR_IDENTITY]
+    for sel in ([near] if ptp == near else [near, ptp]):
+        wd = dict(worlds)
+        for n_ in sel:
+            wd[n_] = np.eye(4)
+        out.append(Expect(sm, wd))
+    return out
+
+
+def near_identity(M):
+    d = float(np.abs(np.asarray(M, dtype=np.float64) - np.eye(4)).max())
+    return 0.0 < d <= NEAR_IDENTITY
+
+
+def ignored_small_updates(scene, sm):
+    """some raw edge record is not the matrix last written to it, and differs from it by less than 1e-8"""
+    t = scene.graph.transforms
+    for n, p in sm.forest.parent.items():
+        rec = t.edge_data.get((p, n))
+        if rec is None or "matrix" not in rec:
+            continue
+        d = np.abs(np.asarray(rec["matrix"], dtype=np.float64) - sm.forest.matrix[n])
+        if 0.0 < d.max() <= NEAR_IDENTITY:
+            return True
+    return False
+
+
+def world_skipping_near_identity(f, node):
+    """product of the edges from the base frame to `node`, near-identity factors of a 2+ edge path left out"""
+    mats = []
+    n = node
+    while n in f.parent:
+        mats.append(f.matrix[n])
+        n = f.parent[n]
+    mats = mats[::-1]
+    if len(mats) >= 2:
+        mats = [m for m in mats if np.abs(m - np.eye(4)).max() > NEAR_IDENTITY]
+    W = np.eye(4)
+    for m in mats:
+        W = W @ m
+    return W
+
+
 def real_worlds(run, scene, sm, case):
     """
     World matrices as the real graph reports them; compared with the forest.  Returns
@@ -513,11 +729,22 @@ def real_worlds(run, scene, sm, case):
             M, g = None, None
         if M is not None:
             worlds[node] = M
-            if np.abs(M - W).max() > RTOL * max(1.0, np.abs(W).max()) or g != gname:
+            if worlds_differ(M, W) or g != gname:
                 ok = False
     if not ok:
         former = "alive" if (sm.forest.former or sm.forest.reparented_onto_former) else "none"
-        run.violation("graph_world_transform=differs_from_forest former_edge=%s" % former,
+        # a world matrix whose uniform scale is not the product of the edge scales (key feature)
+        lost = any(node in worlds and abs(lin_scale(worlds[node]) - lin_scale(W)) > 1e-3 * lin_scale(W)
+                   for node, gname, W in sm.forest.instances())
+        sym = ""
+        if lost:
+            sym = " sym=uniform_scale_differs edge_precision=%s" % ("low" if sm.regime == "lowprec" else "exact")
+        elif ignored_small_updates(scene, sm):
+            sym = " sym=edge_update_below_1e-8_ignored"
+        elif worlds and all(not worlds_differ(M, world_skipping_near_identity(sm.forest, n)) for n, M in worlds.items()):
+            sym = " sym=near_identity_edge_dropped_from_path"
+        run.violation(("graph_world_transform=differs_from_forest former_edge=%s%s" % (former, sym)) if "1e-8" not in sym and "near_identity" not in sym
+                      else "graph_world_transform=differs_from_forest%s" % sym,
                       "scene.graph.get(node) is not the product of the current edges (property C09); scene reads "
                       "are judged against the graph's own answer for this state",
                       dict(case, worlds={k: v for k, v in worlds.items()}))
@@ -539,6 +766,10 @@ def do_reads(run, scene, sm, reads, case, after="build", edited=False, pre_edit=
     kinds = sm.kinds_present()
     has2 = any(g.kind == "path2" for g in sm.geoms.values())  # placed or not: reads walk scene.geometry
     only_mesh = kinds == ["mesh"]
+    near = sm.near_identity_nodes(worlds)
+    if near:
+        run.count("reads_with_a_world_matrix_within_1e-8_of_identity")
+    ex_dropped = None
     bad = 0
     for r in reads:
         cached_before = scene._cache.cache.get(r) if r in CACHED else None
@@ -552,6 +783,7 @@ def do_reads(run, scene, sm, reads, case, after="build", edited=False, pre_edit=
                 or (r == "convex_hull" and (len(ex.points) < 4 or not np.all(ex.extents > 0)))
                 or (r in ("center_mass", "moment_inertia") and not only_mesh)
                 or (r == "to_geometry" and len(ex.triangles) == 0)
+                or (sm.regime == "small" and r in ("center_mass", "moment_inertia", "convex_hull"))
             )
             if refuse_ok:
                 run.count("read_refused:%s" % r)
@@ -570,12 +802,26 @@ def do_reads(run, scene, sm, reads, case, after="build", edited=False, pre_edit=
             # not among the quantities the statement names; judged on rigid all-mesh scenes only
             run.count("read_not_judged:%s:similarity" % r)
             continue
+        if sm.regime == "small" and r in ("center_mass", "moment_inertia", "convex_hull"):
+            # mass properties / qhull of a geometry of size 1e-9 have absolute thresholds of their own
+            # (a bare Trimesh of that size behaves the same): not a scene-level mechanism
+            run.count("read_not_judged:%s:small" % r)
+            continue
         sym = judge_read(run, r, val, ex, sm, only_mesh)
         if sym is None:
             continue
         bad += 1
+        if near:
+            # is the value what explicit placement gives when the near-identity world matrices are
+            # replaced by the identity (the instance left where the geometry is defined)?
+            if ex_dropped is None:
+                ex_dropped = dropped_expectations(sm, worlds, near)
+            if any(judge_read(run, r, val, e_, sm, only_mesh) is None for e_ in ex_dropped):
+                sym = NI_DROPPED
         key = "read=%s sym=%s edge_class=%s" % (r, sym, ec)
-        if pre_edit is not None and r in pre_edit and val is pre_edit[r]:
+        if sym == NI_DROPPED:
+            key = "read=%s sym=%s" % (r, sym)  # neither the other edges nor the cache take part
+        elif pre_edit is not None and r in pre_edit and val is pre_edit[r]:
             # the very object cached before the last edit came back
             key += " served=entry_cached_before_the_edit after=%s" % after
         run.violation(key, "scene-level quantity differs from explicit placement of every instance",
@@ -631,7 +877,11 @@ def judge_read(run, r, val, ex, sm, only_mesh):
         hv = np.asarray(val.vertices, dtype=np.float64)
         if len(hv) < 4:
             return "degenerate_hull"
-        tol = 1e-6 * max(1.0, want)
+        tol = 10 * TOL.r * max(TOL.floor ** 3, want)
+        if TOL.r > RTOL:
+            # low-precision regime: every coordinate may be off by the coordinate tolerance, the volume
+            # by that much times the surface of the hull
+            tol = max(tol, 2.0 * float(ConvexHull(ex.points).area) * TOL.r * 10 * S)
         try:
             v_h = float(ConvexHull(hv).volume)
             v_u = float(ConvexHull(np.vstack([hv, ex.points])).volume)
@@ -703,7 +953,7 @@ def judge_dump(val, ex):
         g = got[0]
         V = np.asarray(g.vertices, dtype=np.float64)
         if V.ndim == 2 and V.shape[1] == 2:
-            if np.abs(P[:, 2]).max() > RTOL * ex.scale * 10:
+            if np.abs(P[:, 2]).max() > TOL.r * ex.scale * 10:
                 return "planar_dump_of_out_of_plane_instance"
             V = np.column_stack([V, np.zeros(len(V))])
         if kind in ("path2", "path3"):
@@ -754,7 +1004,7 @@ def judge_concat(val, ex, what):
 
     d, _ = cKDTree(both).query(got)
     d2, _ = cKDTree(np.vstack([got, got[:, [3, 4, 5, 0, 1, 2]]])).query(want)
-    tol = RTOL * ex.scale * 30
+    tol = TOL.r * ex.scale * 30
     return None if (d.max() <= tol and d2.max() <= tol) else "wrong_value"
 
 
@@ -795,7 +1045,7 @@ def apply_edit(run, rng, pyrng, scene, sm, kind, serial):
             return None
         n = pyrng.choice(nonroot)
         s = pyrng.choice((1.0, 1.0) + SCALES)
-        M = edge_matrix(rng, pyrng.choice(["general", "aligned", "none"]), s)
+        M = edge_matrix(rng, pyrng.choice(["general", "aligned", "none"]), s, unit=sm.unit)
         scene.graph.update(n, f.parent[n], matrix=M.copy())
         f.update(n, f.parent[n], M)
         return {"edit": kind, "node": n, "matrix": M.tolist()}
@@ -805,7 +1055,7 @@ def apply_edit(run, rng, pyrng, scene, sm, kind, serial):
         if not cands:
             return None
         n, p = pyrng.choice(cands)
-        M = edge_matrix(rng, "general", pyrng.choice((1.0, 1.0, 2.0, 0.5)))
+        M = edge_matrix(rng, "general", pyrng.choice((1.0, 1.0, 2.0, 0.5)), unit=sm.unit)
         scene.graph.update(n, p, matrix=M.copy())
         f.update(n, p, M)
         return {"edit": kind, "node": n, "parent": p, "matrix": M.tolist()}
@@ -824,18 +1074,18 @@ def apply_edit(run, rng, pyrng, scene, sm, kind, serial):
         parents = [None] + [n for n in f.nodes if n != f.base and f.depth(n) < 4 and f.world(n) is not None]
         p = pyrng.choice(parents)
         name = "x%d" % serial
-        M = edge_matrix(rng, "general", pyrng.choice((1.0, 1.0, 2.0)))
+        M = edge_matrix(rng, "general" if sm.regime != "small" else pyrng.choice(["general", "none"]), pyrng.choice((1.0, 1.0, 2.0)), unit=sm.unit)
         scene.graph.update(name, p if p is not None else "world", matrix=M.copy(), geometry=g)
         f.update(name, p, M, geometry=g)
         return {"edit": kind, "node": name, "parent": p, "geometry": g, "matrix": M.tolist()}
     if kind == "add_geometry":
-        k = pyrng.choice(KINDS)
-        gm = random_geom(rng, k)
+        k = pyrng.choice(KINDS if sm.regime != "small" else KINDS[:3])
+        gm = random_geom(rng, k, sm.unit)
         gname = "h%d" % serial
         parents = [None] + [n for n in f.nodes if n != f.base and f.depth(n) < 4 and f.world(n) is not None]
         p = pyrng.choice(parents)
         name = "y%d" % serial
-        M = edge_matrix(rng, "general", 1.0)
+        M = edge_matrix(rng, "general", 1.0, unit=sm.unit)
         scene.add_geometry(make_real(gm), node_name=name, geom_name=gname, parent_node_name=p, transform=M.copy())
         sm.geoms[gname] = gm
         f.update(name, p, M, geometry=gname)
@@ -852,7 +1102,7 @@ def apply_edit(run, rng, pyrng, scene, sm, kind, serial):
         parents = [None] + [n for n in f.nodes if n != f.base and f.depth(n) < 4 and f.world(n) is not None]
         p = pyrng.choice(parents)
         name = "z%d" % serial
-        M = edge_matrix(rng, "general", 1.0)
+        M = edge_matrix(rng, "general", 1.0, unit=sm.unit)
         scene.add_geometry(scene.geometry[g], node_name=name, geom_name=alias, parent_node_name=p, transform=M.copy())
         sm.geoms[alias] = sm.geoms[g]
         sm.prefer = g if pyrng.random() < 0.5 else alias
@@ -885,7 +1135,7 @@ def apply_edit(run, rng, pyrng, scene, sm, kind, serial):
         g = sm.prefer  # the object that is known under two names
     gm, real = sm.geoms[g], scene.geometry[g]
     if kind == "vertex_setitem":
-        d = np.round(rng.uniform(0.5, 2.0, size=gm.V.shape[1]), 3)
+        d = np.round(rng.uniform(0.5, 2.0, size=gm.V.shape[1]), 3) * sm.unit
         if gm.kind == "path2":
             # moving one corner could make the polygon self-intersect (area undefined): move them all
             real.vertices[:] += d
@@ -909,14 +1159,14 @@ def apply_edit(run, rng, pyrng, scene, sm, kind, serial):
             real.apply_transform(M)
             gm.V = gm.V @ M[:2, :2].T + M[:2, 2]
         else:
-            M = edge_matrix(rng, "general", 1.0)
+            M = edge_matrix(rng, "general", 1.0, unit=sm.unit)
             real.apply_transform(M)
             gm.V = gm.V @ M[:3, :3].T + M[:3, 3]
         return {"edit": kind, "geometry": g, "matrix": M.tolist()}
     if kind == "geom_replace":
-        new = random_geom(rng, gm.kind)
-        if new.V.shape == gm.V.shape and np.allclose(new.V, gm.V):
-            new.V += 1.0  # a replacement with identical content would be a legitimate cache hit
+        new = random_geom(rng, gm.kind, sm.unit)
+        if new.V.shape == gm.V.shape and np.allclose(new.V, gm.V, rtol=0, atol=1e-8 * sm.unit):
+            new.V += 1.0 * sm.unit  # a replacement with identical content would be a legitimate cache hit
         scene.geometry[g] = make_real(new)
         sm.geoms[g] = new
         return {"edit": kind, "geometry": g, "kind": new.kind, "V": new.V.tolist(), "F": None if new.F is None else new.F.tolist()}
@@ -1011,6 +1261,10 @@ def snapshot_diff(a, b):
 
 
 def raw_placements(D):
+    return [(k, P, F) for k, P, F, W, V in raw_placements_full(D)]
+
+
+def raw_placements_full(D):
     """
     Placements of a scene from its raw records only: parents + the edge record of each
     (parent, child) + node geometry names + geometry arrays, through a fresh reference forest.
@@ -1036,7 +1290,7 @@ def raw_placements(D):
         if V.shape[1] == 2:
             V = np.column_stack([V, np.zeros(len(V))])
         kind = "mesh" if hasattr(geom, "faces") else ("path" if hasattr(geom, "entities") else "cloud")
-        out.append((kind, V @ W[:3, :3].T + W[:3, 3], np.asarray(geom.faces) if kind == "mesh" else None))
+        out.append((kind, V @ W[:3, :3].T + W[:3, 3], np.asarray(geom.faces) if kind == "mesh" else None, W, V))
     return out
 
 
@@ -1117,11 +1371,18 @@ def derived_ops(rng, pyrng, sm, battery):
     ops.append(("rezero", "-", {}))
     ops.append(("convert_units", "in->mm", {"current": "in", "desired": "mm"}))
     M = axis_angle_to_matrix(_unit([2, -1, 1]), 1.1)
-    M[:3, 3] = [3.0, -1.0, 2.0]
+    M[:3, 3] = np.array([3.0, -1.0, 2.0]) * sm.unit
     ops.append(("apply_transform", "rigid", {"matrix": M.tolist()}))
     M2 = M.copy()
     M2[:3, :3] *= 2.0
     ops.append(("apply_transform", "similarity", {"matrix": M2.tolist()}))
+    if sm.regime == "small":
+        M3 = np.eye(4)
+        M3[:3, 3] = np.array([3.0, -1.0, 2.0]) * sm.unit
+        ops.append(("apply_transform", "translation", {"matrix": M3.tolist()}))
+    # the copy is edited afterwards (geometry reference of a node, an edge, vertices, a geometry deleted):
+    # the source must not notice
+    ops.append(("copy", "then_edit", {}))
     ops.append(("add", "other", {}))
     ops.append(("add", "self", {}))
     ops.append(("append_scenes", "clash3", {}))
@@ -1136,24 +1397,75 @@ def derived_ops(rng, pyrng, sm, battery):
     return ops
 
 
-def other_scene():
+def other_scene(unit=1.0):
     """A second scene whose geometry and frame names clash with the generated ones."""
     spec = {
-        "geoms": {"g0": fixed_geom("mesh"), "g1": fixed_geom("cloud")},
+        "geoms": {"g0": fixed_geom("mesh", unit), "g1": fixed_geom("cloud", unit)},
         "frames": [
-            ("f0", None, _fixed_M(0), None),
-            ("f1", "f0", _fixed_M(1), "g0"),
-            ("m0", None, _fixed_M(2), "g1"),
+            ("f0", None, _fixed_M(0, unit), None),
+            ("f1", "f0", _fixed_M(1, unit), "g0"),
+            ("m0", None, _fixed_M(2, unit), "g1"),
         ],
         "unplaced": [],
     }
     return build(spec)
 
 
-def _fixed_M(i):
+def _fixed_M(i, unit=1.0):
     M = axis_angle_to_matrix(_unit([1 + i, 2, -1]), 0.5 + 0.4 * i)
-    M[:3, 3] = [7.0 + i, -6.0, 5.0 - i]
+    M[:3, 3] = np.array([7.0 + i, -6.0, 5.0 - i]) * unit
     return M
+
+
+def small_regime_key(key, opkey, op, par, scene, sm, exq, expected, actual, S):
+    """Narrow keys for the mechanisms that only coordinates below 1e-8 reach."""
+    if op == "rezero" and exq.centroid is not None and 0 < np.abs(exq.centroid).max() <= NEAR_IDENTITY:
+        unmoved = expected_from(sm, None, None)
+        m, e = match_placements(unmoved, actual, S)
+        if not m and not e:
+            return "derived=rezero sym=not_moved centroid=within_1e-8_of_origin"
+    if op == "apply_transform":
+        Tm = np.array(par["matrix"], dtype=np.float64)
+        f = sm.forest
+        for n, p in f.parent.items():
+            if p == f.base and float(np.ptp(Tm @ f.matrix[n] - f.matrix[n])) < NEAR_IDENTITY:
+                return "derived=apply_transform sym=misplaced edge_change=below_1e-8"
+    f = sm.forest
+    if "rotated_parent_translated_child=yes" in key:
+        return key  # the recorded per-axis defect explains it at any size
+    if any(near_identity(M) for M in f.matrix.values()) or sm.near_identity_nodes():
+        return key + " input=matrix_within_1e-8_of_identity"
+    return key
+
+
+def edit_the_copy(run, D, unit):
+    """
+    Deterministic edits of a derived scene through the public API, each of which rewrites a record that
+    a shallow copy would share with the source: the matrix of an edge, the geometry reference of a node
+    (re-pointed / removed with its geometry), the vertex array of a geometry, a geometry replaced.
+    """
+    t = D.graph.transforms
+    gnodes = [n for n in D.graph.nodes_geometry]
+    names = list(D.geometry.keys())
+    if gnodes:
+        n = gnodes[0]
+        parent = t.parents.get(n)
+        if parent is not None:
+            M = np.array(t.edge_data[(parent, n)].get("matrix", np.eye(4)), dtype=np.float64).copy()
+            M[:3, 3] += np.array([1.0, 2.0, 3.0]) * unit
+            D.graph.update(n, parent, matrix=M)
+            run.count("copy_edit:edge_matrix")
+        g_now = t.node_data[n].get("geometry")
+        others = [g for g in names if g != g_now]
+        if others and parent is not None:
+            D.graph.update(n, parent, geometry=others[0])
+            run.count("copy_edit:node_geometry_repointed")
+    if names:
+        g = D.geometry[names[-1]]
+        g.vertices *= 2.0
+        run.count("copy_edit:vertices_scaled_in_place")
+        D.delete_geometry(names[0])
+        run.count("copy_edit:delete_geometry")
 
 
 def run_derived(run, scene, sm, op, cls, par, case, worlds):
@@ -1163,7 +1475,7 @@ def run_derived(run, scene, sm, op, cls, par, case, worlds):
     ec = sm.edge_class()
     kinds = sm.kinds_present()
     feats = "edge_class=%s" % ec
-    opkey = op if op in ("copy", "rezero", "apply_transform", "convert_units") else "%s:%s" % (op, cls)
+    opkey = op if (op in ("copy", "rezero", "apply_transform", "convert_units") and cls != "then_edit") else "%s:%s" % (op, cls)
     inst = "some" if sm.forest.instances() else "none"
     # operations that go through the edge-list export inherit a defect recorded under C09
     cause = ""
@@ -1190,6 +1502,11 @@ def run_derived(run, scene, sm, op, cls, par, case, worlds):
                 Tm = np.array(par["matrix"], dtype=np.float64)
                 D.apply_transform(Tm)
                 expected = expected_from(sm, Tm, worlds)
+        elif op == "copy" and cls == "then_edit":
+            before = snapshot(scene)
+            D = scene.copy()
+            edit_the_copy(run, D, sm.unit)
+            expected = None  # only the source is judged
         elif op == "copy":
             before = snapshot(scene)
             D = scene.copy()
@@ -1220,9 +1537,12 @@ def run_derived(run, scene, sm, op, cls, par, case, worlds):
                 run.skip("add after rezero: the rezero step itself raised (judged under derived=rezero)")
                 return 0
             c = exq.centroid if exq.centroid is not None else np.zeros(3)
+            if sm.regime == "small" and 0 < np.abs(c).max() <= NEAR_IDENTITY:
+                run.skip("add after rezero: centroid within 1e-8 of the origin (judged under derived=rezero)")
+                return 0
             Tm = np.eye(4)
             Tm[:3, 3] = -c
-            o_scene, o_sm = other_scene()
+            o_scene, o_sm = other_scene(sm.unit)
             extra_sources.append((o_scene, snapshot(o_scene)))
             D = (D0 + o_scene) if cls == "rezeroed_left" else (o_scene + D0)
             expected = expected_from(sm, Tm, worlds) + expected_from(o_sm)
@@ -1232,7 +1552,7 @@ def run_derived(run, scene, sm, op, cls, par, case, worlds):
                 D = scene + scene
                 expected = expected_from(sm, None, worlds) * 2
             else:
-                o_scene, o_sm = other_scene()
+                o_scene, o_sm = other_scene(sm.unit)
                 o_before = snapshot(o_scene)
                 extra_sources.append((o_scene, o_before))
                 if op == "add":
@@ -1253,7 +1573,7 @@ def run_derived(run, scene, sm, op, cls, par, case, worlds):
                 Wn = worlds[node] if (worlds is not None and node in worlds) else f.world(node)
                 Tm = np.linalg.inv(Wn)
             expected = expected_from(sm, Tm, worlds, only=sub)
-            S = max(1.0, max([float(np.abs(e[1]).max()) for e in expected if len(e[1])] or [1.0]))
+            S = max(TOL.floor, max([float(np.abs(e[1]).max()) for e in expected if len(e[1])] or [TOL.floor]))
         else:
             raise KeyError(op)
     except Exception as e:
@@ -1272,9 +1592,12 @@ def run_derived(run, scene, sm, op, cls, par, case, worlds):
                 bad += 1
                 run.violation("derived=%s sym=source_modified part=%s" % (opkey, "+".join(diff)),
                               "the operation modified the scene it was derived from", dict(case, op=op, option=cls, params=par, changed=diff))
+    if expected is None:
+        return bad
     # 2. placements of the derived scene from its raw records
     try:
-        actual = raw_placements(D)
+        full = raw_placements_full(D)
+        actual = [a[:3] for a in full]
     except Exception as e:
         key = ("derived=%s sym=not_preserved%s" % (opkey, cause)) if cause else (
             "derived=%s sym=result_unplaceable:%s" % (opkey, type(e).__name__))
@@ -1301,6 +1624,8 @@ def run_derived(run, scene, sm, op, cls, par, case, worlds):
                 key += " rotated_parent_translated_child=%s" % ("yes" if rotated_parent_translated_child(sm) else "no")
             if (op == "scaled" and cls != "axis") or op == "convert_units":
                 key += " path2_moved=%s" % ("yes" if path2_moved(sm) else "no")
+            if sm.regime == "small":
+                key = small_regime_key(key, opkey, op, par, scene, sm, exq, expected, actual, S)
         run.violation(key, "placements of the derived scene are not the source placements scaled / moved accordingly",
                       dict(case, op=op, option=cls, params=par, kinds=kinds, edge_class=ec,
                            missing=[(k, _short(P)) for k, P in missing[:2]], extra=[(k, _short(P)) for k, P, _ in extra[:2]]))
@@ -1323,7 +1648,13 @@ def run_derived(run, scene, sm, op, cls, par, case, worlds):
             rt = np.asarray(D.triangles, dtype=np.float64).reshape(-1, 9)
             if not same_point_multiset(wt, rt, S):
                 bad += 1
-                run.violation(("derived=%s sym=not_preserved%s" % (opkey, cause)) if cause else "derived=%s sym=derived_read_wrong read=triangles" % opkey,
+                dkey = "derived=%s sym=derived_read_wrong read=triangles" % opkey
+                if any(near_identity(a[3]) for a in full):
+                    # the read of the derived scene, not the operation: same mechanism as read=triangles
+                    alt = [(a[4] if near_identity(a[3]) else a[1])[a[2]] for a in full if a[0] == "mesh"]
+                    if rt.shape == wt.shape and same_point_multiset(np.vstack(alt).reshape(-1, 9), rt, S):
+                        dkey = "derived_read=triangles sym=%s" % NI_DROPPED
+                run.violation(("derived=%s sym=not_preserved%s" % (opkey, cause)) if cause else dkey,
                               "triangles of the derived scene disagree with its own raw placements",
                               dict(case, op=op, option=cls, params=par))
     except Exception as e:
@@ -1338,6 +1669,14 @@ def run_derived(run, scene, sm, op, cls, par, case, worlds):
 
 
 def scenario(run, tag, spec, rng, pyrng, n_edits, battery=False, recorded_edits=None, forced=None):
+    regime(spec.get("regime"))
+    try:
+        _scenario(run, tag, spec, rng, pyrng, n_edits, battery, recorded_edits, forced)
+    finally:
+        regime(None)
+
+
+def _scenario(run, tag, spec, rng, pyrng, n_edits, battery, recorded_edits, forced):
     scene, sm = build(spec)
     case = {"spec": spec_to_json(spec), "edits": [], "tag": tag, "battery": battery}
     reads_all = list(READS)
@@ -1376,6 +1715,7 @@ def scenario(run, tag, spec, rng, pyrng, n_edits, battery=False, recorded_edits=
         bad += _tri_node(run, scene, sm, case, case["edits"][-1]["edit"])
     run.state("kinds", "+".join(sm.kinds_present()))
     run.state("edge_class", sm.edge_class())
+    run.state("regime", str(sm.regime))
     nt = sm.nontrivial()
     dig = sm.digest()
     run.case("reads:" + ("battery" if battery else "random"), dig, nontrivial=nt,
@@ -1410,7 +1750,7 @@ def real_worlds_quiet(scene, sm):
             return None, False
         M = np.asarray(M, dtype=np.float64)
         worlds[node] = M
-        if np.abs(M - W).max() > RTOL * max(1.0, np.abs(W).max()) or g != gname:
+        if worlds_differ(M, W) or g != gname:
             ok = False
     return worlds, ok
 
@@ -1429,6 +1769,15 @@ def _tri_node(run, scene, sm, case, after):
     except Exception as e:
         sym = "exception:%s" % type(e).__name__
     run.count("triangles_node_checks")
+    near = sm.near_identity_nodes(worlds)
+    if sym and near:
+        try:
+            if any(judge_triangles_node(scene, e_) is None for e_ in dropped_expectations(sm, worlds, near)):
+                run.violation("read=triangles_node sym=%s" % NI_DROPPED,
+                              "triangles_node labels triangles that were left where the geometry is defined", dict(case, after=after))
+                return 1
+        except Exception:
+            pass
     if sym:
         run.violation("read=triangles_node sym=%s edge_class=%s" % (sym, sm.edge_class()),
                       "triangles_node does not label each placed triangle with its frame", dict(case, after=after))
@@ -1454,17 +1803,36 @@ def workload(run):
         for forced in (F[idx % 5],):
             if not run.out_of_time(0.6):
                 scenario(run, tag + ":shared_object", spec, run.rng, run.pyrng, len(forced), battery=True, forced=forced)
+    # low-precision rotation factors (world matrices that `repair_rigid` looks at) and scenes in a unit of 1e-9
+    for tag, spec in regime_battery_specs():
+        idx += 1
+        if not run.mine(idx):
+            continue
+        if run.out_of_time(0.75):
+            run.inconclusive("regime battery did not finish within the budget")
+            break
+        for n_edits in (0, 2):
+            scenario(run, tag, spec, run.rng, run.pyrng, n_edits, battery=True)
     run.note("battery_seconds", round(run.elapsed(), 1))
     k = 0
     while not run.out_of_time(0.93):
         k += 1
-        spec = random_spec(run.rng, run.pyrng)
-        scenario(run, "random", spec, run.rng, run.pyrng, int(run.rng.integers(0, 5)))
+        reg = (None, None, None, None, None, None, "lowprec", "small")[k % 8]
+        spec = random_spec(run.rng, run.pyrng, reg)
+        scenario(run, "random" if reg is None else "random:" + reg, spec, run.rng, run.pyrng, int(run.rng.integers(0, 5)))
     run.note("random_scenes", k)
 
 
 def replay(run, case):
     spec = spec_from_json(case["spec"])
+    regime(spec.get("regime"))
+    try:
+        _replay(run, case, spec)
+    finally:
+        regime(None)
+
+
+def _replay(run, case, spec):
     scene, sm = build(spec)
     do_reads(run, scene, sm, list(READS), case, after="build")
     last = "build"
